@@ -203,6 +203,15 @@ claim("C16", "exploration", "TLC enumeration of (type, context) skeletons with a
       "Role G: level exploration (the product is enumerated completely, the feature set is the skeleton grammar). A well-typed skeleton the checker rejects is reported as inconclusive "
       "(exit 2), not as a violation. WABT is not installed: V8's validator is the independent one.",
       "DESIGN.md section 4 (language kernel)")
+claim("C07", "exploration", "TLC enumeration of the legal lexical layouts (WaLayout.tla: automatic-semicolon and token-merging rules) + the real formatter run twice, real parser, AST/comment/compiled-module comparison",
+      "WaLayout.tla states which gap fills (spaces, tabs, line breaks, blank lines, block comments, //, # and 注: line comments, semicolons, missing final newline) leave the token "
+      "sequence of a construct unchanged; TLC enumerates every legal layout with one (quick) or two (thorough) perturbed gaps of 15 .wa and 6 .wz constructs. Each text goes through "
+      "api.FormatCode twice; input and output are parsed with the real parser and must have equal position-free AST dumps (import specs compared as a sorted list), equal comment "
+      "multisets, equal second-pass output, and - for the plain construct, every one-comment layout and a slice of the rest - equal compiled WAT (data segments and i32 constants "
+      "masked: the compiler embeds source positions). The repository's own 400 .wa/.wz sources are a second input set.",
+      "Role G: level exploration. A layout the model calls legal that the parser rejects makes the run inconclusive (exit 2). Open known findings: unsorted import groups compile to a "
+      "different module after formatting; a line-ending comment inside `[ ]` of a slice type needs two passes.",
+      "DESIGN.md section 4 (language kernel)")
 claim("C09", "exploration", "TLC-generated kernel cases rendered in both surface syntaxes by independent tables and run: identity of outputs (and equality with the specification)",
       "Every WaInt case (run-time form through functions with typed parameters, and constant form) for u16, int, uintptr, byte, rune (quick) / all integer type names (thorough) is rendered "
       "as a .wa and as a .wz program - type names, func/return, println, main from tables written from token/const_wz.go - and both are compiled and run; outputs must be equal "
